@@ -19,7 +19,11 @@
     C15  system mass, mass centre, momentum (about Ground origin and about the mass centre), inertia,
          kinetic energy against the per-body sums of the spec
     C02  inverse-dynamics residual for udot = 0 against the Kane bias of the spec, and forward dynamics
-         udot against -M^-1 bias (solved here from the spec's exact M and bias)
+         udot against -M^-1 bias (solved here from the spec's exact M and bias); with applied body forces F
+         (integers) and the mobility forces tau = M ud + bias - J'F computed exactly by the spec for integer
+         ud: realized udot = ud, zero inverse-dynamics residual, J'F through the operator
+    C14  mobilizer reactions (on the body at M, on the parent at F) of that motion against the spec's
+         tip-to-base Newton-Euler balance; the freebody method and the MobilizedBody accessors agree
 """
 import json, os, sys, subprocess, random, math, re
 sys.path.insert(0, os.path.dirname(os.path.abspath(__file__)))
@@ -35,7 +39,7 @@ NU = {t: (3 if t == "ball" else 6 if t == "free" else len(KINDS[t])) for t in TY
 QUATS = [([1, 0, 0, 0], 0, 0), ([0, 1, 0, 0], 0, 0), ([0, 0, 0, 1], 0, 0), ([0, 0, -1, 0], 0, 0),
          ([3, 4, 0, 0], 1, 2), ([3, 0, -4, 0], 1, 2), ([0, 3, 0, 4], 1, 2), ([4, 0, 0, 3], 1, 2), ([0, 0, 3, -4], 1, 2),
          ([1, 2, 2, 4], 1, 2), ([2, -1, 4, 2], 1, 2), ([-2, 4, 1, 2], 1, 2)]
-INERTIAS = [[2, 3, 4], [1, 1, 1], [2, 2, 3], [3, 2, 2], [1, 2, 2]]
+INERTIAS = [[2, 3, 4], [4, 3, 2], [2, 2, 3], [3, 2, 2], [3, 4, 2], [1, 1, 1]]     # mostly distinct moments: unit / equal values hide missing factors
 
 
 def frac(x):
@@ -112,24 +116,41 @@ class Gen:
             budget -= c
             q = [{"k": v, "m": e} for v in comp] + q
         u = [self.r.randint(-2, 2) for _ in range(NU[typ])]
+        # a second, independent coordinate / speed set: the target of the fitting operations
+        q2, b2 = [], 2
+        for idx, kd in enumerate(KINDS[typ]):
+            if kd == "a":
+                a, c = self.angle(b2, middle=(idx == 1 and typ in ("universal", "gimbal", "bushing")))
+                b2 -= c
+                q2.append(a)
+            elif kd == "l":
+                # BendStretch is polar coordinates: its fitting uses the canonical form r >= 0
+                q2.append({"k": self.r.randint(0 if typ == "bendstretch" else -2, 2), "m": 0})
+        if "c" in KINDS[typ]:
+            comp, e, c = self.r.choice(QUATS)
+            q2 = [{"k": v, "m": e} for v in comp] + q2
+        self.last_fit = (q2, [self.r.randint(-2, 2) for _ in range(NU[typ])])
         d = {"parent": parent, "type": typ, "rev": int(rev), "RF": RF, "pF": pF, "RM": RM, "pM": pM,
-             "mass": self.r.randint(1, 3), "com": [self.r.randint(-1, 2) for _ in range(3)] if self.r.random() < 0.8 else [0, 0, 0],
+             "mass": self.r.choice([2, 3, 2, 3, 5, 1]), "com": [self.r.randint(-1, 2) for _ in range(3)] if self.r.random() < 0.8 else [0, 0, 0],
              "ic": self.r.choice(INERTIAS)}
         return d, q, u, budget
 
     def config(self, spec, dyn, budget):
         """spec: list of (parent, type, rev, fcls, mcls); budget: powers of 5 allowed on every root path"""
-        desc, qs, us, left = [], [], [], {0: budget}
+        desc, qs, us, left, q2s, u2s = [], [], [], {0: budget}, [], []
         for i, (parent, typ, rev, fcls, mcls) in enumerate(spec, 1):
             d, q, u, b = self.body(parent, typ, rev, fcls, mcls, left[parent])
             left[i] = b
-            desc.append(d); qs.append(q); us.append(u)
+            desc.append(d); qs.append(q); us.append(u); q2s.append(self.last_fit[0]); u2s.append(self.last_fit[1])
         if all(v == 0 for uu in us for v in uu) and any(us):
             for uu in us:
                 if uu:
                     uu[0] = 1
                     break
-        return {"desc": desc, "q": qs, "u": us, "dyn": int(dyn)}
+        ud = [[self.r.choice([-2, -1, 1, 2, 2, 0]) for _ in uu] for uu in us]
+        F = [{"t": [self.r.randint(-2, 2) for _ in range(3)], "f": [self.r.randint(-2, 2) for _ in range(3)]} if self.r.random() < 0.7
+             else {"t": [0, 0, 0], "f": [0, 0, 0]} for _ in desc]
+        return {"desc": desc, "q": qs, "u": us, "dyn": int(dyn), "ud": ud, "F": F, "q2": q2s, "u2": u2s}
 
 
 def generate(tier, seed):
@@ -142,7 +163,7 @@ def generate(tier, seed):
             if typ == "weld" and rev:
                 continue
             for fcls, mcls in (("i", "i"), ("t", "t"), ("g", "g"), ("g", "i"), ("i", "g")):
-                for dyn in (0, 1):
+                for dyn in (0, 1, 1):       # the dynamics configurations twice, with independent draws
                     b = 1 if dyn else 2
                     cfgs.append(g.config([(0, typ, rev, fcls, mcls)], dyn, b))
                     cfgs.append(g.config([(0, "pin", 0, "g", "t"), (1, typ, rev, fcls, mcls)], dyn, b))
@@ -230,7 +251,7 @@ def compare(cfg, want, got):
     """-> list of (property, what, detail)"""
     res = []
     if got.get("exc"):
-        return [(p, "exception", got["exc"]) for p in ("C05", "C03", "C04", "C01", "C15", "C02")]
+        return [(p, "exception", got["exc"]) for p in ("C05", "C03", "C04", "C01", "C15", "C02", "C14")]
     w = conv(want)
 
     def chk(prop, what, a, b):
@@ -245,6 +266,16 @@ def compare(cfg, want, got):
             res.append((prop, what, "residual %.3g" % v))
 
     poses_ok = chk("C05", "pose", w["X"], got["X"])
+    for b, (fw, fg) in enumerate(zip(w["fit"], got["fit"])):
+        typ = cfg["desc"][b]["type"] + ("-rev" if cfg["desc"][b]["rev"] else "")
+        chk("C05", "setQToFitTransform/" + typ, [fw["R"], fw["p"]], [fg["R1"], fg["p1"]])
+        chk("C05", "setQToFitRotation-then-Translation/" + typ, [fw["R"], fw["p"]], [fg["R2"], fg["p2"]])
+        chk("C05", "setUToFitVelocity/" + typ, [fw["w"], fw["v"]], [fg["w1"], fg["v1"]])
+        # RigidBodyNode::setUToFitLinearVelocity on a REVERSED mobilizer assumes zero angular velocity (a TODO in the
+        # code): its own call site, so that any other failure of the sequence is still reported
+        rev_lin = cfg["desc"][b]["rev"] and any(abs(x) > 0 for x in fw["w"]) and "l" in KINDS[cfg["desc"][b]["type"]]
+        chk("C05", "setUToFitLinearVelocity/reversed-with-angular-velocity" if rev_lin else "setUToFitAngular-then-LinearVelocity/" + typ,
+            [fw["w"], fw["v"]], [fg["w2"], fg["v2"]])
     vel_ok = chk("C03", "velocity", w["V"], got["V"])
     if poses_ok and not vel_ok:
         res.append(("C05", "speed-meaning", res[-1][2]))
@@ -278,6 +309,21 @@ def compare(cfg, want, got):
         if nu:
             ud = solve(w["M"], [-v for v in w["bias"]])
             chk("C02", "forward-dynamics", ud, got["udot"])
+        # with applied body forces F and the mobility forces tau of the spec, udot must be the integers ud
+        udflat = [float(v) for uu in cfg["ud"] for v in uu]
+        fsc = max([1.0] + [abs(v) for v in flat(w["tau"])])
+        d, _ = maxdiff(udflat, got["udotF"])
+        if not d <= 1e-8 * fsc:
+            res.append(("C02", "forward-dynamics-with-applied-forces", "expected udot %s, observed %s" % (udflat, got["udotF"])))
+        small("C02", "inverse-of-forward-residual", got["errResidual"], fsc)
+        chk("C02", "inverse-dynamics-M-udot-plus-bias", [a + b for a, b in zip(w["tau"], w["JtF"])], got["MudBias"])
+        chk("C02", "body-forces-enter-as-JtF", w["JtF"], got["JtF"])
+        chk("C04", "body-accelerations", [[b["aw"], b["a"]] for b in w["A"]], [[b["aw"], b["a"]] for b in got["A"]])
+        rsc = max([1.0] + [abs(v) for v in flat(w["reactM"])])
+        chk("C14", "reaction-on-body-at-M", [[b["t"], b["f"]] for b in w["reactM"]], [[b["t"], b["f"]] for b in got["reactM"]])
+        chk("C14", "reaction-on-parent-at-F", [[b["t"], b["f"]] for b in w["reactF"]], [[b["t"], b["f"]] for b in got["reactF"]])
+        small("C14", "freebody-method-agrees", got["errFreebody"], rsc)
+        small("C14", "findMobilizerReactionOnBodyAtMInGround", got["errFindReaction"], rsc)
     return res
 
 
@@ -307,7 +353,11 @@ def main():
     pfile, ofile = os.path.join(work, "run.ndjson"), os.path.join(work, "out.ndjson")
     with open(pfile, "w") as f:
         for i in idx:
-            f.write(json.dumps(cfgs[i]) + "\n")
+            c = dict(cfgs[i])
+            c["fitTarget"] = conv(want[i]["fit"])       # X_FM, V_FM of the second coordinate set, from the spec
+            if c["dyn"]:
+                c["tau"] = conv(want[i]["tau"])       # the mobility forces the spec says produce udot = ud
+            f.write(json.dumps(c) + "\n")
     pr = subprocess.run(["timeout", "1200", binpath, pfile, ofile], capture_output=True, text=True)
     outs = [json.loads(l) for l in open(ofile)] if os.path.exists(ofile) else []
     if pr.returncode != 0 or len(outs) != len(idx):
@@ -324,7 +374,7 @@ def main():
         for prop, what, detail in compare(c, want[i], o):
             if prop != pid:
                 continue
-            sig = "%s/%s" % (what, "+".join(sorted(set(d["type"] + ("-rev" if d["rev"] else "") for d in c["desc"]))))
+            sig = what if "/" in what else "%s/%s" % (what, "+".join(sorted(set(d["type"] + ("-rev" if d["rev"] else "") for d in c["desc"]))))
             if sig in seen:
                 continue
             seen.add(sig)
